@@ -383,6 +383,9 @@ class Session:
                         self.tls_version = TlsVersion.TLS12
                 else:
                     self.can_decrypt = False
+        if not self.client_hello_seen:
+            # the capture does not contain the ClientHello: no client random, the session cannot be decrypted
+            return
         self.generate_keys(self.tls_version, self.ciphersuite, self.client_random, self.server_random)
 
     def handle_alert(self, alert_level):
